@@ -63,7 +63,7 @@ def norm_proj(p):
 class Prov:
     def __init__(self, prog, foreign="through", identity=IDENTITY_CALLS,
                  max_pi=10, field_based=True, terminal=None,
-                 lalrpop_bridge=True):
+                 lalrpop_bridge=True, follow_params=True):
         self.prog = prog
         self.foreign = foreign
         self.identity = set(identity)
@@ -71,6 +71,7 @@ class Prov:
         self.field_based = field_based
         self.terminal = terminal      # predicate(Call) -> stop at this call
         self.lalrpop_bridge = lalrpop_bridge
+        self.follow_params = follow_params   # False: stop at function parameters
         self.memo = {}
         self.inprog = set()
         self.cyclic = False
@@ -445,6 +446,8 @@ class Prov:
                 out.add(("param", f.path, n, pi))
             return out
         site = self._at_context_site(f)
+        if site is None and not self.follow_params:
+            return {("param", f.path, n, pi)}
         if site is not None:
             g, c = site
             if not c.is_ptr and n - 1 < len(c.args):
